@@ -2,7 +2,7 @@
    T is any type with a bare record of operations O; `ring_theory` / `laws O` (field axioms + three facts about sqrt and
    the thresholds, all true in R: Examples.R_laws) are the only assumptions about the numbers.  Unit complex numbers stand
    for e^{i angle}; nothing transcendental is used.  Solvers are universally quantified functions. *)
-From Coq Require Import ZArith List Bool Ring Field QArith Permutation.
+From Coq Require Import ZArith List Bool Ring Field QArith Permutation String.
 Require Import MV.Lib.Base MV.C18.Ops MV.C18.Gen MV.C18.Model.
 Require Import MV.C18.Proofs_Herm MV.C18.Proofs_Opt MV.C18.Proofs_Cstr MV.C18.Proofs_Index MV.C18.Proofs_Main MV.C18.Proofs_Range MV.C18.Proofs_Gauge
   MV.C18.Proofs_Quantum MV.C18.Proofs_GaugeExt MV.C18.Proofs_Stage MV.C18.Examples.
@@ -341,3 +341,12 @@ Theorem C18_stage_protocols :
   initf_sets_initialized = true /\ initv_sets_initialized = true.
 Proof. exact stage_all. Qed.
 Print Assumptions C18_stage_protocols.
+
+(* FULL.  What `_initialize_attributes` leaves cached on the mesh object (generated from the `persistent=` flags of its attribute
+   computations): the face-based field NOTHING (its cotangents and angle defects are private), the vertex-based field the corner
+   angles, cotangents and vertex normals (the caches of known finding history/stale-geometry-cache).  Each run also snapshots
+   the attribute names before / after every field computation (oracle clause leak/attribute). *)
+Theorem C18_init_caches :
+  initf_cached = nil /\ initv_cached = ("corner_angles" :: "cotangent" :: "vertex_normals" :: nil)%string.
+Proof. exact init_caches. Qed.
+Print Assumptions C18_init_caches.
